@@ -1,9 +1,560 @@
-// app family — nothing modelled yet (stub)
+// App family: BootP, DHCP, DHCPv6, RTP, VXLAN, ARP, STP (DNS belongs to C10).
+// Field names, order and value formats mirror lean/TinsModel/Wire/App/*.lean (`fields`).
 #pragma once
 #include "wire_iface.h"
+#include <tins/bootp.h>
+#include <tins/dhcp.h>
+#include <tins/arp.h>
 namespace wire {
-inline bool app_dump(const PDU&, std::string&) { return false; }
-inline PDU* app_mk(const std::string&, const std::vector<std::string>&) { return 0; }
-inline bool app_apply(PDU&, const std::vector<std::string>&) { return false; }
-inline bool app_sweep(const PDU&, std::string&) { return false; }
+
+// ---------------------------------------------------------------- helpers
+inline bool app_hex(const std::string& s, bytes& out) { return vh::parse_hex(s, out); }
+inline bool app_hex_n(const std::string& s, size_t n, bytes& out) { return vh::parse_hex(s, out) && out.size() == n; }
+inline bool app_mac(const std::string& s, HWAddress<6>& out) {
+    bytes b;
+    if (!app_hex_n(s, 6, b)) return false;
+    out = HWAddress<6>(b.data());
+    return true;
+}
+inline bool app_ip4(const std::string& s, IPv4Address& out) {
+    bytes b;
+    if (!app_hex_n(s, 4, b)) return false;
+    uint32_t v;
+    memcpy(&v, b.data(), 4);
+    out = IPv4Address(v);
+    return true;
+}
+inline bool app_ip6(const std::string& s, IPv6Address& out) {
+    bytes b;
+    if (!app_hex_n(s, 16, b)) return false;
+    out = IPv6Address(b.data());
+    return true;
+}
+inline std::vector<std::string> app_split(const std::string& s, char sep) {
+    std::vector<std::string> out;
+    std::string cur;
+    for (size_t i = 0; i < s.size(); ++i) {
+        if (s[i] == sep) { out.push_back(cur); cur.clear(); }
+        else cur.push_back(s[i]);
+    }
+    out.push_back(cur);
+    return out;
+}
+// comma separated list argument; "-" = empty list
+inline std::vector<std::string> app_list(const std::string& s) {
+    if (s == "-") return std::vector<std::string>();
+    return app_split(s, ',');
+}
+inline std::string app_join(const std::vector<std::string>& v) {
+    if (v.empty()) return "-";
+    std::string s;
+    for (size_t i = 0; i < v.size(); ++i) { if (i) s += ","; s += v[i]; }
+    return s;
+}
+inline std::string app_num(unsigned long long v) { std::ostringstream o; o << v; return o.str(); }
+
+// a typed getter: value, "none" (option_not_found) or "bad" (malformed_option); anything else propagates
+template <typename F>
+inline std::string app_typed(F f) {
+    try { return f(); }
+    catch (const option_not_found&) { return "none"; }
+    catch (const malformed_option&) { return "bad"; }
+}
+
+template <typename Opts>
+inline std::string app_opts(const Opts& opts) {
+    std::vector<std::string> items;
+    for (typename Opts::const_iterator it = opts.begin(); it != opts.end(); ++it) {
+        std::ostringstream o;
+        o << (unsigned long)it->option() << ":" << it->length_field() << ":" << vh::to_hex(it->data_ptr(), it->data_size());
+        items.push_back(o.str());
+    }
+    return app_join(items);
+}
+
+inline std::string app_ip4_list(const std::vector<IPv4Address>& v) {
+    std::vector<std::string> items;
+    for (size_t i = 0; i < v.size(); ++i) items.push_back(hex_of(v[i]));
+    return app_join(items);
+}
+
+inline std::string app_class_data(const std::vector<std::vector<uint8_t> >& v) {
+    if (v.empty()) return "empty";
+    std::string s;
+    for (size_t i = 0; i < v.size(); ++i) { if (i) s += ","; s += vh::to_hex(v[i]); }
+    return s;
+}
+inline bool app_class_arg(const std::string& s, std::vector<std::vector<uint8_t> >& out) {
+    out.clear();
+    if (s == "empty") return true;
+    std::vector<std::string> parts = app_split(s, ',');
+    for (size_t i = 0; i < parts.size(); ++i) {
+        bytes b;
+        if (!app_hex(parts[i], b)) return false;
+        out.push_back(b);
+    }
+    return true;
+}
+
+// ---------------------------------------------------------------- dumps
+inline void bootp_header_dump(FieldDump& d, const BootP& b) {
+    BootP::chaddr_type ch = b.chaddr();
+    d.num("opcode", b.opcode()).num("htype", b.htype()).num("hlen", b.hlen()).num("hops", b.hops())
+     .num("xid", b.xid()).num("secs", b.secs()).num("padding", b.padding())
+     .str("ciaddr", hex_of(b.ciaddr())).str("yiaddr", hex_of(b.yiaddr())).str("siaddr", hex_of(b.siaddr()))
+     .str("giaddr", hex_of(b.giaddr())).hex("chaddr", ch.begin(), 16)
+     .hex("sname", b.sname(), 64).hex("file", b.file(), 128);
+}
+
+inline std::string dhcpv6_dump(const DHCPv6& d) {
+    FieldDump f;
+    f.num("msg_type", (unsigned)d.msg_type());
+    if (d.is_relay_message()) {
+        f.num("hop_count", d.hop_count()).str("link_address", hex_of(d.link_address()))
+         .str("peer_address", hex_of(d.peer_address()));
+    } else {
+        f.num("transaction_id", (uint32_t)d.transaction_id());
+    }
+    f.str("opts", app_opts(d.options()));
+    f.str("ia_na", app_typed([&]() -> std::string {
+        DHCPv6::ia_na_type v = d.ia_na();
+        return app_num(v.id) + "." + app_num(v.t1) + "." + app_num(v.t2) + "." + vh::to_hex(v.options); }));
+    f.str("ia_ta", app_typed([&]() -> std::string {
+        DHCPv6::ia_ta_type v = d.ia_ta();
+        return app_num(v.id) + "." + vh::to_hex(v.options); }));
+    f.str("ia_address", app_typed([&]() -> std::string {
+        DHCPv6::ia_address_type v = d.ia_address();
+        return hex_of(v.address) + "." + app_num(v.preferred_lifetime) + "." + app_num(v.valid_lifetime) + "." + vh::to_hex(v.options); }));
+    f.str("option_request", app_typed([&]() -> std::string {
+        DHCPv6::option_request_type v = d.option_request();
+        std::vector<std::string> items;
+        for (size_t i = 0; i < v.size(); ++i) items.push_back(app_num(v[i]));
+        return app_join(items); }));
+    f.str("preference", app_typed([&]() -> std::string { return app_num(d.preference()); }));
+    f.str("elapsed_time", app_typed([&]() -> std::string { return app_num(d.elapsed_time()); }));
+    f.str("relay_message", app_typed([&]() -> std::string { return vh::to_hex(d.relay_message()); }));
+    f.str("authentication", app_typed([&]() -> std::string {
+        DHCPv6::authentication_type v = d.authentication();
+        return app_num(v.protocol) + "." + app_num(v.algorithm) + "." + app_num(v.rdm) + "." + app_num(v.replay_detection) + "." + vh::to_hex(v.auth_info); }));
+    f.str("server_unicast", app_typed([&]() -> std::string { return hex_of(d.server_unicast()); }));
+    f.str("status_code", app_typed([&]() -> std::string {
+        DHCPv6::status_code_type v = d.status_code();
+        return app_num(v.code) + "." + vh::to_hex((const uint8_t*)v.message.data(), v.message.size()); }));
+    f.num("has_rapid_commit", d.has_rapid_commit() ? 1 : 0);
+    f.str("user_class", app_typed([&]() -> std::string { return app_class_data(d.user_class().data); }));
+    f.str("vendor_class", app_typed([&]() -> std::string {
+        DHCPv6::vendor_class_type v = d.vendor_class();
+        return app_num(v.enterprise_number) + "." + app_class_data(v.vendor_class_data); }));
+    f.str("vendor_info", app_typed([&]() -> std::string {
+        DHCPv6::vendor_info_type v = d.vendor_info();
+        return app_num(v.enterprise_number) + "." + vh::to_hex(v.data); }));
+    f.str("interface_id", app_typed([&]() -> std::string { return vh::to_hex(d.interface_id()); }));
+    f.str("reconfigure_msg", app_typed([&]() -> std::string { return app_num(d.reconfigure_msg()); }));
+    f.num("has_reconfigure_accept", d.has_reconfigure_accept() ? 1 : 0);
+    f.str("client_id", app_typed([&]() -> std::string {
+        DHCPv6::duid_type v = d.client_id();
+        return app_num(v.id) + "." + vh::to_hex(v.data); }));
+    f.str("server_id", app_typed([&]() -> std::string {
+        DHCPv6::duid_type v = d.server_id();
+        return app_num(v.id) + "." + vh::to_hex(v.data); }));
+    return f.done();
+}
+
+inline bool app_dump(const PDU& p, std::string& out) {
+    switch (p.pdu_type()) {
+    case PDU::ARP: {
+        const ARP& a = static_cast<const ARP&>(p);
+        out = FieldDump().num("hw_addr_format", a.hw_addr_format()).num("prot_addr_format", a.prot_addr_format())
+                  .num("hw_addr_length", a.hw_addr_length()).num("prot_addr_length", a.prot_addr_length())
+                  .num("opcode", a.opcode())
+                  .str("sender_hw_addr", hex_of(a.sender_hw_addr())).str("sender_ip_addr", hex_of(a.sender_ip_addr()))
+                  .str("target_hw_addr", hex_of(a.target_hw_addr())).str("target_ip_addr", hex_of(a.target_ip_addr()))
+                  .done();
+        return true;
+    }
+    case PDU::VXLAN: {
+        const VXLAN& v = static_cast<const VXLAN&>(p);
+        out = FieldDump().num("flags", v.get_flags()).num("vni", (uint32_t)v.get_vni()).done();
+        return true;
+    }
+    case PDU::STP: {
+        const STP& s = static_cast<const STP&>(p);
+        STP::bpdu_id_type r = s.root_id(), b = s.bridge_id();
+        out = FieldDump().num("proto_id", s.proto_id()).num("proto_version", s.proto_version())
+                  .num("bpdu_type", s.bpdu_type()).num("bpdu_flags", s.bpdu_flags())
+                  .num("root_id_priority", (unsigned)r.priority).num("root_id_ext_id", (unsigned)r.ext_id)
+                  .str("root_id_id", hex_of(r.id))
+                  .num("root_path_cost", s.root_path_cost())
+                  .num("bridge_id_priority", (unsigned)b.priority).num("bridge_id_ext_id", (unsigned)b.ext_id)
+                  .str("bridge_id_id", hex_of(b.id))
+                  .num("port_id", s.port_id()).num("msg_age", s.msg_age()).num("max_age", s.max_age())
+                  .num("hello_time", s.hello_time()).num("fwd_delay", s.fwd_delay()).done();
+        return true;
+    }
+    case PDU::RTP: {
+        const RTP& r = static_cast<const RTP&>(p);
+        std::vector<std::string> cs, ed;
+        for (size_t i = 0; i < r.csrc_ids().size(); ++i) cs.push_back(app_num(Endian::be_to_host(r.csrc_ids()[i])));
+        for (size_t i = 0; i < r.extension_data().size(); ++i) ed.push_back(app_num(Endian::be_to_host(r.extension_data()[i])));
+        out = FieldDump().num("version", (unsigned)r.version()).num("padding_bit", (unsigned)r.padding_bit())
+                  .num("extension_bit", (unsigned)r.extension_bit()).num("csrc_count", (unsigned)r.csrc_count())
+                  .num("marker_bit", (unsigned)r.marker_bit()).num("payload_type", (unsigned)r.payload_type())
+                  .num("sequence_number", r.sequence_number()).num("timestamp", r.timestamp()).num("ssrc_id", r.ssrc_id())
+                  .str("csrc_ids", app_join(cs))
+                  .num("extension_profile", r.extension_profile()).num("extension_length", r.extension_length())
+                  .str("extension_data", app_join(ed)).num("padding_size", r.padding_size()).done();
+        return true;
+    }
+    case PDU::BOOTP: {
+        const BootP& b = static_cast<const BootP&>(p);
+        FieldDump d;
+        bootp_header_dump(d, b);
+        d.str("vend", vh::to_hex(b.vend()));
+        out = d.done();
+        return true;
+    }
+    case PDU::DHCP: {
+        const DHCP& h = static_cast<const DHCP&>(p);
+        FieldDump d;
+        bootp_header_dump(d, h);
+        d.str("opts", app_opts(h.options()));
+        d.str("type", app_typed([&]() -> std::string { return app_num(h.type()); }));
+        d.str("server_identifier", app_typed([&]() -> std::string { return hex_of(h.server_identifier()); }));
+        d.str("lease_time", app_typed([&]() -> std::string { return app_num(h.lease_time()); }));
+        d.str("renewal_time", app_typed([&]() -> std::string { return app_num(h.renewal_time()); }));
+        d.str("rebind_time", app_typed([&]() -> std::string { return app_num(h.rebind_time()); }));
+        d.str("subnet_mask", app_typed([&]() -> std::string { return hex_of(h.subnet_mask()); }));
+        d.str("routers", app_typed([&]() -> std::string { return app_ip4_list(h.routers()); }));
+        d.str("domain_name_servers", app_typed([&]() -> std::string { return app_ip4_list(h.domain_name_servers()); }));
+        d.str("broadcast", app_typed([&]() -> std::string { return hex_of(h.broadcast()); }));
+        d.str("requested_ip", app_typed([&]() -> std::string { return hex_of(h.requested_ip()); }));
+        d.str("domain_name", app_typed([&]() -> std::string {
+            std::string s = h.domain_name(); return vh::to_hex((const uint8_t*)s.data(), s.size()); }));
+        d.str("hostname", app_typed([&]() -> std::string {
+            std::string s = h.hostname(); return vh::to_hex((const uint8_t*)s.data(), s.size()); }));
+        out = d.done();
+        return true;
+    }
+    case PDU::DHCPv6:
+        out = dhcpv6_dump(static_cast<const DHCPv6&>(p));
+        return true;
+    default:
+        return false;
+    }
+}
+
+// ---------------------------------------------------------------- constructors
+inline PDU* app_mk(const std::string& cls, const std::vector<std::string>& a) {
+    if (cls == "ARP") {
+        IPv4Address tip, sip;
+        HWAddress<6> thw, shw;
+        if (a.size() == 4 && app_ip4(a[0], tip) && app_ip4(a[1], sip) && app_mac(a[2], thw) && app_mac(a[3], shw))
+            return new ARP(tip, sip, thw, shw);
+        return new ARP();
+    }
+    if (cls == "VXLAN") {
+        if (a.size() == 1) return new VXLAN(small_uint<24>(uint32_t(std::stoul(a[0]))));
+        return new VXLAN();
+    }
+    if (cls == "STP") return new STP();
+    if (cls == "RTP") return new RTP();
+    if (cls == "BootP") return new BootP();
+    if (cls == "DHCP") return new DHCP();
+    if (cls == "DHCPv6") return new DHCPv6();
+    return 0;
+}
+
+// ---------------------------------------------------------------- setters
+inline bool bootp_apply(BootP& b, const std::vector<std::string>& op) {
+    if (op.size() != 2) return false;
+    const std::string& k = op[0];
+    const std::string& v = op[1];
+    IPv4Address ip;
+    bytes x;
+    if (k == "opcode") { b.opcode(uint8_t(std::stoul(v))); return true; }
+    if (k == "htype") { b.htype(uint8_t(std::stoul(v))); return true; }
+    if (k == "hlen") { b.hlen(uint8_t(std::stoul(v))); return true; }
+    if (k == "hops") { b.hops(uint8_t(std::stoul(v))); return true; }
+    if (k == "xid") { b.xid(uint32_t(std::stoul(v))); return true; }
+    if (k == "secs") { b.secs(uint16_t(std::stoul(v))); return true; }
+    if (k == "padding") { b.padding(uint16_t(std::stoul(v))); return true; }
+    if (k == "ciaddr" && app_ip4(v, ip)) { b.ciaddr(ip); return true; }
+    if (k == "yiaddr" && app_ip4(v, ip)) { b.yiaddr(ip); return true; }
+    if (k == "siaddr" && app_ip4(v, ip)) { b.siaddr(ip); return true; }
+    if (k == "giaddr" && app_ip4(v, ip)) { b.giaddr(ip); return true; }
+    if (k == "chaddr" && app_hex(v, x)) {
+        if (x.size() == 6) { b.chaddr(HWAddress<6>(x.data())); return true; }
+        if (x.size() == 16) { b.chaddr(HWAddress<16>(x.data())); return true; }
+        return false;
+    }
+    if (k == "sname" && app_hex_n(v, 64, x)) { b.sname(x.data()); return true; }
+    if (k == "file" && app_hex_n(v, 128, x)) { b.file(x.data()); return true; }
+    return false;
+}
+
+inline bool app_ip4_list_arg(const std::string& s, std::vector<IPv4Address>& out) {
+    std::vector<std::string> parts = app_list(s);
+    for (size_t i = 0; i < parts.size(); ++i) {
+        IPv4Address ip;
+        if (!app_ip4(parts[i], ip)) return false;
+        out.push_back(ip);
+    }
+    return true;
+}
+
+inline bool dhcp_apply(DHCP& d, const std::vector<std::string>& op) {
+    const std::string& k = op[0];
+    bytes x;
+    IPv4Address ip;
+    if (k == "add_option" && op.size() == 3 && app_hex(op[2], x)) {
+        d.add_option(DHCP::option(uint8_t(std::stoul(op[1])), x.size(), x.empty() ? (const uint8_t*)"" : x.data()));
+        return true;
+    }
+    if (k == "remove_option" && op.size() == 2) { d.remove_option(DHCP::OptionTypes(uint8_t(std::stoul(op[1])))); return true; }
+    if (k == "end" && op.size() == 1) { d.end(); return true; }
+    if (op.size() == 2) {
+        const std::string& v = op[1];
+        if (k == "type") { d.type(DHCP::Flags(uint8_t(std::stoul(v)))); return true; }
+        if (k == "server_identifier" && app_ip4(v, ip)) { d.server_identifier(ip); return true; }
+        if (k == "lease_time") { d.lease_time(uint32_t(std::stoul(v))); return true; }
+        if (k == "renewal_time") { d.renewal_time(uint32_t(std::stoul(v))); return true; }
+        if (k == "rebind_time") { d.rebind_time(uint32_t(std::stoul(v))); return true; }
+        if (k == "subnet_mask" && app_ip4(v, ip)) { d.subnet_mask(ip); return true; }
+        if (k == "routers") { std::vector<IPv4Address> l; if (!app_ip4_list_arg(v, l)) return false; d.routers(l); return true; }
+        if (k == "domain_name_servers") { std::vector<IPv4Address> l; if (!app_ip4_list_arg(v, l)) return false; d.domain_name_servers(l); return true; }
+        if (k == "broadcast" && app_ip4(v, ip)) { d.broadcast(ip); return true; }
+        if (k == "requested_ip" && app_ip4(v, ip)) { d.requested_ip(ip); return true; }
+        if (k == "domain_name" && app_hex(v, x)) { d.domain_name(std::string(x.begin(), x.end())); return true; }
+        if (k == "hostname" && app_hex(v, x)) { d.hostname(std::string(x.begin(), x.end())); return true; }
+    }
+    return bootp_apply(d, op);
+}
+
+inline bool dhcpv6_apply(DHCPv6& d, const std::vector<std::string>& op) {
+    const std::string& k = op[0];
+    size_t n = op.size();
+    bytes x;
+    IPv6Address ip6;
+    if (k == "msg_type" && n == 2) { d.msg_type(DHCPv6::MessageType(uint8_t(std::stoul(op[1])))); return true; }
+    if (k == "hop_count" && n == 2) { d.hop_count(uint8_t(std::stoul(op[1]))); return true; }
+    if (k == "transaction_id" && n == 2) { d.transaction_id(small_uint<24>(uint32_t(std::stoul(op[1])))); return true; }
+    if (k == "peer_address" && n == 2 && app_ip6(op[1], ip6)) { d.peer_address(ip6); return true; }
+    if (k == "link_address" && n == 2 && app_ip6(op[1], ip6)) { d.link_address(ip6); return true; }
+    if (k == "add_option" && n == 3 && app_hex(op[2], x)) {
+        d.add_option(DHCPv6::option(uint16_t(std::stoul(op[1])), x.begin(), x.end()));
+        return true;
+    }
+    if (k == "remove_option" && n == 2) { d.remove_option(DHCPv6::OptionTypes(uint16_t(std::stoul(op[1])))); return true; }
+    if (k == "ia_na" && n == 5 && app_hex(op[4], x)) {
+        d.ia_na(DHCPv6::ia_na_type(uint32_t(std::stoul(op[1])), uint32_t(std::stoul(op[2])), uint32_t(std::stoul(op[3])), x));
+        return true;
+    }
+    if (k == "ia_ta" && n == 3 && app_hex(op[2], x)) { d.ia_ta(DHCPv6::ia_ta_type(uint32_t(std::stoul(op[1])), x)); return true; }
+    if (k == "ia_address" && n == 5 && app_ip6(op[1], ip6) && app_hex(op[4], x)) {
+        d.ia_address(DHCPv6::ia_address_type(ip6, uint32_t(std::stoul(op[2])), uint32_t(std::stoul(op[3])), x));
+        return true;
+    }
+    if (k == "option_request" && n == 2) {
+        DHCPv6::option_request_type l;
+        std::vector<std::string> parts = app_list(op[1]);
+        for (size_t i = 0; i < parts.size(); ++i) l.push_back(uint16_t(std::stoul(parts[i])));
+        d.option_request(l);
+        return true;
+    }
+    if (k == "preference" && n == 2) { d.preference(uint8_t(std::stoul(op[1]))); return true; }
+    if (k == "elapsed_time" && n == 2) { d.elapsed_time(uint16_t(std::stoul(op[1]))); return true; }
+    if (k == "relay_message" && n == 2 && app_hex(op[1], x)) { d.relay_message(x); return true; }
+    if (k == "authentication" && n == 6 && app_hex(op[5], x)) {
+        d.authentication(DHCPv6::authentication_type(uint8_t(std::stoul(op[1])), uint8_t(std::stoul(op[2])),
+                                                     uint8_t(std::stoul(op[3])), uint64_t(std::stoull(op[4])), x));
+        return true;
+    }
+    if (k == "server_unicast" && n == 2 && app_ip6(op[1], ip6)) { d.server_unicast(ip6); return true; }
+    if (k == "status_code" && n == 3 && app_hex(op[2], x)) {
+        d.status_code(DHCPv6::status_code_type(uint16_t(std::stoul(op[1])), std::string(x.begin(), x.end())));
+        return true;
+    }
+    if (k == "rapid_commit" && n == 1) { d.rapid_commit(); return true; }
+    if (k == "user_class" && n == 2) {
+        DHCPv6::user_class_type::data_type l;
+        if (!app_class_arg(op[1], l)) return false;
+        d.user_class(DHCPv6::user_class_type(l));
+        return true;
+    }
+    if (k == "vendor_class" && n == 3) {
+        DHCPv6::vendor_class_type::class_data_type l;
+        if (!app_class_arg(op[2], l)) return false;
+        d.vendor_class(DHCPv6::vendor_class_type(uint32_t(std::stoul(op[1])), l));
+        return true;
+    }
+    if (k == "vendor_info" && n == 3 && app_hex(op[2], x)) {
+        d.vendor_info(DHCPv6::vendor_info_type(uint32_t(std::stoul(op[1])), x));
+        return true;
+    }
+    if (k == "interface_id" && n == 2 && app_hex(op[1], x)) { d.interface_id(x); return true; }
+    if (k == "reconfigure_msg" && n == 2) { d.reconfigure_msg(uint8_t(std::stoul(op[1]))); return true; }
+    if (k == "reconfigure_accept" && n == 1) { d.reconfigure_accept(); return true; }
+    if (k == "client_id" && n == 3 && app_hex(op[2], x)) { d.client_id(DHCPv6::duid_type(uint16_t(std::stoul(op[1])), x)); return true; }
+    if (k == "server_id" && n == 3 && app_hex(op[2], x)) { d.server_id(DHCPv6::duid_type(uint16_t(std::stoul(op[1])), x)); return true; }
+    return false;
+}
+
+inline bool app_apply(PDU& p, const std::vector<std::string>& op) {
+    if (op.empty()) return false;
+    const std::string& k = op[0];
+    switch (p.pdu_type()) {
+    case PDU::ARP: {
+        if (op.size() != 2) return false;
+        ARP& a = static_cast<ARP&>(p);
+        const std::string& v = op[1];
+        HWAddress<6> m;
+        IPv4Address ip;
+        if (k == "hw_addr_format") { a.hw_addr_format(uint16_t(std::stoul(v))); return true; }
+        if (k == "prot_addr_format") { a.prot_addr_format(uint16_t(std::stoul(v))); return true; }
+        if (k == "hw_addr_length") { a.hw_addr_length(uint8_t(std::stoul(v))); return true; }
+        if (k == "prot_addr_length") { a.prot_addr_length(uint8_t(std::stoul(v))); return true; }
+        if (k == "opcode") { a.opcode(ARP::Flags(uint16_t(std::stoul(v)))); return true; }
+        if (k == "sender_hw_addr" && app_mac(v, m)) { a.sender_hw_addr(m); return true; }
+        if (k == "target_hw_addr" && app_mac(v, m)) { a.target_hw_addr(m); return true; }
+        if (k == "sender_ip_addr" && app_ip4(v, ip)) { a.sender_ip_addr(ip); return true; }
+        if (k == "target_ip_addr" && app_ip4(v, ip)) { a.target_ip_addr(ip); return true; }
+        return false;
+    }
+    case PDU::VXLAN: {
+        if (op.size() != 2) return false;
+        VXLAN& v = static_cast<VXLAN&>(p);
+        if (k == "flags") { v.set_flags(uint8_t(std::stoul(op[1]))); return true; }
+        if (k == "vni") { v.set_vni(small_uint<24>(uint32_t(std::stoul(op[1])))); return true; }
+        return false;
+    }
+    case PDU::STP: {
+        STP& s = static_cast<STP&>(p);
+        if (op.size() == 4 && (k == "root_id" || k == "bridge_id")) {
+            HWAddress<6> m;
+            if (!app_mac(op[3], m)) return false;
+            STP::bpdu_id_type id(small_uint<4>(uint8_t(std::stoul(op[1]))), small_uint<12>(uint16_t(std::stoul(op[2]))), m);
+            if (k == "root_id") s.root_id(id); else s.bridge_id(id);
+            return true;
+        }
+        if (op.size() != 2) return false;
+        unsigned long v = std::stoul(op[1]);
+        if (k == "proto_id") { s.proto_id(uint16_t(v)); return true; }
+        if (k == "proto_version") { s.proto_version(uint8_t(v)); return true; }
+        if (k == "bpdu_type") { s.bpdu_type(uint8_t(v)); return true; }
+        if (k == "bpdu_flags") { s.bpdu_flags(uint8_t(v)); return true; }
+        if (k == "root_path_cost") { s.root_path_cost(uint32_t(v)); return true; }
+        if (k == "port_id") { s.port_id(uint16_t(v)); return true; }
+        if (k == "msg_age") { s.msg_age(uint16_t(v)); return true; }
+        if (k == "max_age") { s.max_age(uint16_t(v)); return true; }
+        if (k == "hello_time") { s.hello_time(uint16_t(v)); return true; }
+        if (k == "fwd_delay") { s.fwd_delay(uint16_t(v)); return true; }
+        return false;
+    }
+    case PDU::RTP: {
+        if (op.size() != 2) return false;
+        RTP& r = static_cast<RTP&>(p);
+        unsigned long v = std::stoul(op[1]);
+        if (k == "version") { r.version(small_uint<2>(uint8_t(v))); return true; }
+        if (k == "extension_bit") { r.extension_bit(small_uint<1>(uint8_t(v))); return true; }
+        if (k == "marker_bit") { r.marker_bit(small_uint<1>(uint8_t(v))); return true; }
+        if (k == "payload_type") { r.payload_type(small_uint<7>(uint8_t(v))); return true; }
+        if (k == "sequence_number") { r.sequence_number(uint16_t(v)); return true; }
+        if (k == "timestamp") { r.timestamp(uint32_t(v)); return true; }
+        if (k == "ssrc_id") { r.ssrc_id(uint32_t(v)); return true; }
+        if (k == "padding_size") { r.padding_size(uint8_t(v)); return true; }
+        if (k == "extension_profile") { r.extension_profile(uint16_t(v)); return true; }
+        if (k == "add_extension_data") { r.add_extension_data(uint32_t(v)); return true; }
+        if (k == "remove_extension_data") { r.remove_extension_data(uint32_t(v)); return true; }
+        if (k == "add_csrc_id") { r.add_csrc_id(uint32_t(v)); return true; }
+        if (k == "remove_csrc_id") { r.remove_csrc_id(uint32_t(v)); return true; }
+        return false;
+    }
+    case PDU::BOOTP: {
+        BootP& b = static_cast<BootP&>(p);
+        bytes x;
+        if (k == "vend" && op.size() == 2 && app_hex(op[1], x)) { b.vend(x); return true; }
+        return bootp_apply(b, op);
+    }
+    case PDU::DHCP:
+        return dhcp_apply(static_cast<DHCP&>(p), op);
+    case PDU::DHCPv6:
+        return dhcpv6_apply(static_cast<DHCPv6&>(p), op);
+    default:
+        return false;
+    }
+}
+
+// ---------------------------------------------------------------- accessor sweep (C01)
+// run `f` on every option; the item reports the worst outcome: a non-libtins exception, else a libtins exception, else ok
+template <typename Opts, typename F>
+inline void sweep_all(std::string& out, const char* name, const Opts& opts, F f) {
+    std::string worst = "ok";
+    for (typename Opts::const_iterator it = opts.begin(); it != opts.end(); ++it) {
+        try { f(*it); }
+        catch (const std::exception& e) {
+            std::string n = vh::exc_name(e);
+            if (n.compare(0, 4, "std:") == 0) worst = "throw:" + n;
+            else if (worst == "ok") worst = "throw:" + n;
+        }
+    }
+    if (!out.empty()) out += ",";
+    out += std::string(name) + ":" + worst;
+}
+
+inline bool app_sweep(const PDU& p, std::string& out) {
+    if (p.pdu_type() == PDU::DHCP) {
+        const DHCP& d = static_cast<const DHCP&>(p);
+        const DHCP::options_type opts = d.options();
+        typedef DHCP::option O;
+        sweep_all(out, "dhcp.u8", opts, [](const O& o) { o.to<uint8_t>(); });
+        sweep_all(out, "dhcp.u16", opts, [](const O& o) { o.to<uint16_t>(); });
+        sweep_all(out, "dhcp.u32", opts, [](const O& o) { o.to<uint32_t>(); });
+        sweep_all(out, "dhcp.u64", opts, [](const O& o) { o.to<uint64_t>(); });
+        sweep_all(out, "dhcp.ip", opts, [](const O& o) { o.to<IPv4Address>(); });
+        sweep_all(out, "dhcp.ip6", opts, [](const O& o) { o.to<IPv6Address>(); });
+        sweep_all(out, "dhcp.hw", opts, [](const O& o) { o.to<HWAddress<6> >(); });
+        sweep_all(out, "dhcp.str", opts, [](const O& o) { o.to<std::string>(); });
+        sweep_all(out, "dhcp.vu8", opts, [](const O& o) { o.to<std::vector<uint8_t> >(); });
+        sweep_all(out, "dhcp.vu16", opts, [](const O& o) { o.to<std::vector<uint16_t> >(); });
+        sweep_all(out, "dhcp.vu32", opts, [](const O& o) { o.to<std::vector<uint32_t> >(); });
+        sweep_all(out, "dhcp.vip", opts, [](const O& o) { o.to<std::vector<IPv4Address> >(); });
+        sweep_all(out, "dhcp.vip6", opts, [](const O& o) { o.to<std::vector<IPv6Address> >(); });
+        sweep_all(out, "dhcp.pair", opts, [](const O& o) { o.to<std::pair<uint16_t, uint32_t> >(); });
+        sweep_all(out, "dhcp.vpair", opts, [](const O& o) { o.to<std::vector<std::pair<uint8_t, uint8_t> > >(); });
+        sweep_item(out, "dhcp.search", [&]() { for (int c = 0; c < 256; ++c) d.search_option(DHCP::OptionTypes(c)); });
+        return true;
+    }
+    if (p.pdu_type() == PDU::DHCPv6) {
+        const DHCPv6& d = static_cast<const DHCPv6&>(p);
+        const DHCPv6::options_type& opts = d.options();
+        typedef DHCPv6::option O;
+        sweep_all(out, "v6.ia_na", opts, [](const O& o) { DHCPv6::ia_na_type::from_option(o); });
+        sweep_all(out, "v6.ia_ta", opts, [](const O& o) { DHCPv6::ia_ta_type::from_option(o); });
+        sweep_all(out, "v6.ia_addr", opts, [](const O& o) { DHCPv6::ia_address_type::from_option(o); });
+        sweep_all(out, "v6.auth", opts, [](const O& o) { DHCPv6::authentication_type::from_option(o); });
+        sweep_all(out, "v6.status", opts, [](const O& o) { DHCPv6::status_code_type::from_option(o); });
+        sweep_all(out, "v6.vinfo", opts, [](const O& o) { DHCPv6::vendor_info_type::from_option(o); });
+        sweep_all(out, "v6.vclass", opts, [](const O& o) { DHCPv6::vendor_class_type::from_option(o); });
+        sweep_all(out, "v6.uclass", opts, [](const O& o) { DHCPv6::user_class_type::from_option(o); });
+        sweep_all(out, "v6.duid", opts, [](const O& o) { DHCPv6::duid_type::from_option(o); });
+        sweep_all(out, "v6.duid_llt", opts, [](const O& o) { DHCPv6::duid_llt::from_bytes(o.data_ptr(), uint32_t(o.data_size())); });
+        sweep_all(out, "v6.duid_en", opts, [](const O& o) { DHCPv6::duid_en::from_bytes(o.data_ptr(), uint32_t(o.data_size())); });
+        sweep_all(out, "v6.duid_ll", opts, [](const O& o) { DHCPv6::duid_ll::from_bytes(o.data_ptr(), uint32_t(o.data_size())); });
+        sweep_all(out, "v6.u8", opts, [](const O& o) { o.to<uint8_t>(); });
+        sweep_all(out, "v6.u16", opts, [](const O& o) { o.to<uint16_t>(); });
+        sweep_all(out, "v6.u32", opts, [](const O& o) { o.to<uint32_t>(); });
+        sweep_all(out, "v6.ip6", opts, [](const O& o) { o.to<IPv6Address>(); });
+        sweep_all(out, "v6.vu16", opts, [](const O& o) { o.to<std::vector<uint16_t> >(); });
+        sweep_all(out, "v6.vip6", opts, [](const O& o) { o.to<std::vector<IPv6Address> >(); });
+        sweep_item(out, "v6.search", [&]() { for (int c = 0; c < 90; ++c) d.search_option(DHCPv6::OptionTypes(c)); });
+        return true;
+    }
+    if (p.pdu_type() == PDU::RTP) {
+        RTP& r = const_cast<RTP&>(static_cast<const RTP&>(p));   // search_* are non-const members but do not modify
+        sweep_item(out, "rtp.search", [&]() { r.search_csrc_id(0); r.search_extension_data(0); });
+        return true;
+    }
+    return false;
+}
+
 } // namespace wire
